@@ -144,9 +144,33 @@ def fast_digest(on=True):
 # --------------------------------------------------------------------------
 
 
+# Every Store stands for a pipeline started afresh on its own directories: module-level containers of the database
+# code (none on the pinned tree; a cache or memo table in a changed one) start as they were at import, so that a
+# history never depends on what earlier cases of the same harness process left behind and its witness replays alone.
+import copy  # noqa: E402
+import dawgie.db.shelve.model  # noqa: E402
+import dawgie.db.shelve.search  # noqa: E402
+import dawgie.db.shelve.util  # noqa: E402
+
+# (the attribute dawgie.db.shelve.search is a function that shadows the submodule of that name)
+_STATE_MODULES = [dawgie.db.shelve, comms, sys.modules['dawgie.db.shelve.search'], dawgie.db.shelve.util, dawgie.db.shelve.model, dawgie.db.shelve.state, dawgie.db.util]
+_MODULE_STATE = [
+    (m, k, copy.deepcopy(v))
+    for m in _STATE_MODULES
+    for k, v in list(vars(m).items())
+    if isinstance(v, (list, dict, set)) and not k.startswith('__')
+]
+
+
+def reset_module_state():
+    for m, k, v in _MODULE_STATE:
+        setattr(m, k, copy.deepcopy(v))
+
+
 class Store:
     def __init__(self, root=None, prefix='verif_store_'):
         install()
+        reset_module_state()
         self.owner = root is None
         self.root = root if root else tempfile.mkdtemp(prefix=prefix)
         for d in ('db', 'dbs', 'logs', 'stg'):
